@@ -1077,7 +1077,7 @@ Section WorkStep2.
         change (p_refs p1) with (p_refs p). change (p_vers p1) with (p_vers p). lia.
       - exact (c_sst _ _ _ C).
       - intros j w Hj. pose proof (c_strong _ _ _ C j w Hj) as H. pose proof (nh_adel j h _ v (c_skeys _ _ _ C) Hsome) as Hn.
-        change (p_cur p1) with (p_cur p). rewrite (Nat.eqb_sym j v). destruct (Nat.eqb v j); lia.
+        cbv beta in H. change (p_cur p1) with (p_cur p). rewrite (Nat.eqb_sym j v). destruct (Nat.eqb v j); lia.
       - intros h' j Hin. apply adel_In in Hin. exact (c_hvalid _ _ _ C h' j (proj1 Hin)).
       - exact (c_cur _ _ _ C).
       - exact (c_reg _ _ _ C).
@@ -1117,3 +1117,103 @@ Section WorkStep2.
     - exact G.
   Qed.
 End WorkStep2.
+
+Section WorkStep3.
+  Variables (s : sys) (p : proc) (t : N) (rest : list instr).
+  Let fs := s_fs s.
+  Hypothesis Hh : Hd fs p.
+  Hypothesis Hmain : main_pc p = [].
+  Hypothesis R : RInv p fs.
+  Hypothesis G : GFs fs.
+  Let p1 := pc_set t rest p.
+
+  Lemma commit_step oe roll s1 q0 :
+    pc_get t p = ICommit oe roll :: rest ->
+    (match oe with Some e => store_apply s p1 e roll | None => (s, p1) end) = (s1, q0) ->
+    let adds := match oe with Some e => e_add e | None => [] end in
+    let names' := match oe with
+                  | Some e => dels (e_rm e) (names_of p1 (p_cur p1)) ++ e_add e
+                  | None => names_of p1 (p_cur p1)
+                  end in
+    (forall y, In y adds -> In y (f_sst fs)) ->
+    (forall x, quiet x p -> ~ In x adds) ->
+    StepOut p fs t rest
+      (unref_drop t (p_cur p1)
+         (set_refs (set_vers q0 (p_vers q0 ++ [mkV names' 1 true]) (length (p_vers q0)))
+                   (rc_incs names' (p_refs (set_vers q0 (p_vers q0 ++ [mkV names' 1 true]) (length (p_vers q0)))))))
+      (s_fs s1).
+  Proof.
+    intros Epc Es adds names' Hadds Hquiet.
+    destruct (pop_facts p t _ rest (r_keys _ _ R) Epc) as [Hk1 [Hpc1 [Hr1 Hp1]]]. fold p1 in Hk1, Hpc1, Hr1, Hp1.
+    pose proof (RInv_core _ _ R) as C. pose proof (vers_nonempty _ _ R Hmain) as Hv.
+    assert (Hr1' : forall x, spc (nrel x) (p_pcs p1) = spc (nrel x) (p_pcs p)) by (intros x; specialize (Hr1 x); cbn [is_rel] in Hr1; lia).
+    assert (Hp1' : forall x, spc (npin x) (p_pcs p1) = spc (npin x) (p_pcs p)) by (intros x; specialize (Hp1 x); cbn [is_pin] in Hp1; lia).
+    change (names_of p1 (p_cur p1)) with (names_of p (p_cur p)) in names'. change (p_cur p1) with (p_cur p).
+    (* what the manifest edit does *)
+    assert (Hq0 : p_vers q0 = p_vers p /\ p_cur q0 = p_cur p /\ p_refs q0 = p_refs p /\ p_snaps q0 = p_snaps p /\
+                  p_pcs q0 = p_pcs p1 /\ f_sst (s_fs s1) = f_sst fs /\
+                  ms_strs (frag_state (md_live (f_md (s_fs s1)))) = ms_strs (p_ms q0) /\
+                  (forall y, In y (ms_strs (p_ms q0)) -> In y adds \/ (In y (ms_strs (p_ms p)) /\ In y names'))).
+    { destruct oe as [e|].
+      - destruct (store_apply_unfold s p1 e roll) as [d [ms [next [r [Ea Eu]]]]]. rewrite Eu in Es. injection Es as <- <-.
+        destruct (md_apply_live _ _ _ _ _ _ _ _ _ (proj1 Hh) Ea) as [A1 A2].
+        cbn [p_vers p_cur p_refs p_snaps p_pcs p_ms set_mani s_fs set_md f_sst f_md]. repeat split; try reflexivity.
+        + now rewrite A2, A1.
+        + intros y Hy. rewrite A1 in Hy. apply apply_edit_In in Hy. destruct Hy as [Hy|[Hy Hn]]; [now left|right].
+          split; [exact Hy|]. subst names'. apply in_or_app. left. apply dels_In. split; [|exact Hn].
+          exact (r_strs _ _ R Hv y Hy).
+      - injection Es as <- <-. repeat split; try reflexivity.
+        + fold fs. now rewrite live_is_ms with (s := s) (p := p).
+        + intros y Hy. right. split; [exact Hy|]. exact (r_strs _ _ R Hv y Hy). }
+    destruct Hq0 as [E1 [E2 [E3 [E4 [E5 [E6 [E7 E8]]]]]]].
+    assert (Hnames_sst : forall y, In y names' -> In y (f_sst fs)).
+    { intros y Hy. subst names'. destruct oe as [e|].
+      - apply in_app_iff in Hy. destruct Hy as [Hy|Hy]; [|now apply Hadds]. apply dels_In in Hy.
+        exact (cur_names_in_sst p fs y R Hv (proj1 Hy)).
+      - exact (cur_names_in_sst p fs y R Hv Hy). }
+    assert (Hstrs' : forall y, In y (ms_strs (p_ms q0)) -> In y names').
+    { intros y Hy. destruct (E8 y Hy) as [K|[_ K]]; [|exact K]. subst names' adds. destruct oe as [e|]; [apply in_or_app; now right|destruct K]. }
+    assert (C0 : RCore p (s_fs s1) (fun _ => O)).
+    { split; try (now destruct C). intros x Hx. rewrite E6. exact (c_sst _ _ _ C x Hx). }
+    destruct (commit_core p (s_fs s1) names' q0 C0 Hv E1 E2 E3 E4) as [CX [Hlt Hregs]].
+    { now rewrite E5. }
+    { intros x. now rewrite E5. }
+    { intros x. now rewrite E5. }
+    { intros y Hy. rewrite E6. now apply Hnames_sst. }
+    { exact Hstrs'. }
+    cbn zeta in CX, Hlt, Hregs.
+    set (q2 := set_refs (set_vers q0 (p_vers q0 ++ [mkV names' 1 true]) (length (p_vers q0)))
+                        (rc_incs names' (p_refs (set_vers q0 (p_vers q0 ++ [mkV names' 1 true]) (length (p_vers q0)))))) in *.
+    destruct (unref_core q2 (s_fs s1) t (p_cur p) CX Hlt) as [C' [U1 [[l [U2 U3]] [U4 [U5 [U6 U7]]]]]].
+    assert (Hq2_pc : forall t', pc_get t' q2 = pc_get t' p1) by (intros t'; apply pc_get_eq; exact E5).
+    assert (Hpins : forall x, spc (npin x) (p_pcs (unref_drop t (p_cur p) q2)) = spc (npin x) (p_pcs p)).
+    { intros x. unfold unref_drop. destruct (Nat.eqb (strong_of q2 (p_cur p)) 1).
+      - destruct (push_facts (set_vers q2 (upd_nth (p_cur p) retire (p_vers q2)) (p_cur q2)) t (map IRelease (names_of q2 (p_cur p))) (c_keys _ _ _ CX)) as [_ [_ [_ K']]].
+        cbn zeta in K'. rewrite K', npin_releases. cbn [q2 p_pcs set_refs set_vers]. rewrite E5, Hp1'. lia.
+      - cbn [q2 p_pcs set_refs set_vers]. now rewrite E5, Hp1'. }
+    split.
+    - exact C'.
+    - intros t' Ht'. rewrite (U1 t' Ht'), Hq2_pc, Hpc1. destruct (N.eqb_spec t' t); [contradiction|reflexivity].
+    - exists l. rewrite U2, Hq2_pc, Hpc1, N.eqb_refl. reflexivity.
+    - intros x. rewrite Hpins. lia.
+    - intros x Q Hx. pose proof Q as [Q1 [Q2 Q3]].
+      assert (Hcn : cnt x names' = O).
+      { destruct (Nat.eq_dec (cnt x names') 0) as [E|E]; [exact E|exfalso].
+        assert (Hin : In x names') by (apply cnt_pos; lia). subst names'. destruct oe as [e|].
+        - apply in_app_iff in Hin. destruct Hin as [Hin|Hin]; [|exact (Hquiet x Q Hin)]. apply dels_In in Hin.
+          destruct (cur_registered p fs R Hv) as [v [Ev [Hreg _]]]. destruct Hin as [Hin _]. unfold names_of in Hin. rewrite Ev in Hin.
+          pose proof (regsum_ge x _ _ _ Ev) as Hge. unfold contrib in Hge. rewrite Hreg in Hge. apply cnt_pos in Hin. lia.
+        - destruct (cur_registered p fs R Hv) as [v [Ev [Hreg _]]]. unfold names_of in Hin. rewrite Ev in Hin.
+          pose proof (regsum_ge x _ _ _ Ev) as Hge. unfold contrib in Hge. rewrite Hreg in Hge. apply cnt_pos in Hin. lia. }
+      assert (Hz2 : regsum x (p_vers q2) = O) by (rewrite Hregs; lia).
+      assert (Hnl : ~ In x l) by (intros Hin; specialize (U3 x Hin); lia).
+      split; [|now rewrite E6]. split; [|split].
+      + pose proof (U6 x). lia.
+      + pose proof (c_bal _ _ _ C' x) as B'. rewrite U5 in B'. cbn [q2 p_refs set_refs set_vers] in B'.
+        rewrite rc_get_incs, E3, Hcn, Hpins in B'. pose proof (c_bal _ _ _ C x) as B. pose proof (U6 x). lia.
+      + now rewrite Hpins.
+    - apply U7. cbn [q2 p_vers set_refs set_vers]. intros E. apply (f_equal (@length _)) in E. rewrite app_length in E. cbn in E. lia.
+    - intros y Hy. rewrite E7 in Hy. rewrite E6. destruct (E8 y Hy) as [K|[K _]]; [now apply Hadds|].
+      apply G. fold fs. rewrite live_is_ms with (s := s) (p := p); assumption.
+  Qed.
+End WorkStep3.
